@@ -19,8 +19,34 @@ def find_seconds_parser(prog):
     return out
 
 
-def classify_duration_path(prog, bi, path, is_input):
-    """label of one path of a seconds->duration guard"""
+def flows_into(bi, src_local, dst_locals):
+    """does the value in src_local reach one of dst_locals through assignments / value-preserving calls of this body?"""
+    body = bi.body
+    tainted = {src_local}
+    changed = True
+    while changed:
+        changed = False
+        for blk in body.blocks:
+            if blk.cleanup:
+                continue
+            for st in blk.stmts:
+                if st.k != "assign" or st.lhs.local in tainted:
+                    continue
+                pl = getattr(st.rv, "place", None)
+                if any(o.place is not None and o.place.local in tainted for o in st.rv.ops) or (pl is not None and pl.local in tainted):
+                    tainted.add(st.lhs.local)
+                    changed = True
+            t = blk.term
+            if t.k == "call" and t.dest is not None and t.dest.local not in tainted and any(a.place is not None and a.place.local in tainted for a in t.args):
+                tainted.add(t.dest.local)
+                changed = True
+    return bool(tainted & set(dst_locals))
+
+
+def classify_duration_path(prog, bi, path, is_input, sink=None):
+    """label of one path of a seconds->duration guard.  `sink`: locals holding the value the guard computes (the argument
+    handed on at the end of the path); values built on the path that never reach it (another field's Option, another
+    Duration) are not part of the guard."""
     body = bi.body
     labels = []
     for bb in path.blocks:
@@ -28,8 +54,12 @@ def classify_duration_path(prog, bi, path, is_input):
         for s in blk.stmts:
             if s.k == "assign" and s.rv.k == "agg" and s.rv.j.get("ak") == "adt":
                 if s.rv.j["adt"] == "std::option::Option" and s.rv.j["variant"] == "None":
-                    labels.append("None")
+                    if sink is None or flows_into(bi, s.lhs.local, sink):
+                        labels.append("None")
         t = blk.term
+        if t.k == "call" and t.callee is not None and sink is not None and t.callee.path.startswith("std::time::Duration::from_") \
+                and t.dest is not None and not flows_into(bi, t.dest.local, sink):
+            continue
         if t.k == "call" and t.callee is not None:
             p = t.callee.path
             if p in L.STATUS_CTORS:
@@ -151,7 +181,7 @@ def _pieces(expr, lo, hi):
     return [(lo, hi, ("?",))]
 
 
-def duration_items(prog, bi, path, is_input):
+def duration_items(prog, bi, path, is_input, sink=None):
     """[(lo, hi, label)] of one path of a seconds -> duration guard.  Like classify_duration_path, but the argument of
     Duration::from_*() may be built with max / min / clamp (`raw.max(10)`, `raw.min(600)`): the path's interval is
     split where the expression switches between the input and the constant."""
@@ -159,11 +189,13 @@ def duration_items(prog, bi, path, is_input):
     for bb in path.blocks:
         t = body.blocks[bb].term
         if t.k == "call" and t.callee is not None and t.callee.path.startswith("std::time::Duration::from_") and t.args and t.args[0].const_int() is None:
+            if sink is not None and t.dest is not None and not flows_into(bi, t.dest.local, sink):
+                continue
             e = _value_expr(bi, t.args[0], is_input)
             if e is None or e == ("input",) or (e[0] == "cast" and e[1] == ("input",)):
                 break     # the plain forms are classify_duration_path's
             unit = t.callee.path.split("::")[-1]
-            base = classify_duration_path(prog, bi, path, is_input)
+            base = classify_duration_path(prog, bi, path, is_input, sink)
             other = [x for x in base.split("+") if not x.startswith("Some(%s" % unit)]
             items = []
             for (a, b, pe) in _pieces(e, path.lo, path.hi):
@@ -177,7 +209,7 @@ def duration_items(prog, bi, path, is_input):
                     lab = "Some(%s ?)" % unit
                 items.append((a, b, "+".join(other + [lab])))
             return items
-    return [(path.lo, path.hi, classify_duration_path(prog, bi, path, is_input))]
+    return [(path.lo, path.hi, classify_duration_path(prog, bi, path, is_input, sink))]
 
 
 @rule("C05", "R05.1", "seconds -> action partition: <0 rejected, 0 nack, 1..599 that many seconds, >=600 capped at 600", floor=1)
@@ -494,3 +526,182 @@ def r05_5(prog, out):
             out.holds(key, bi.loc(bb), "every ack id is paired with the request's single seconds value: there is no second list that could be shorter")
     if n < 1:
         raise CheckBroken("expected a caller of the batch parser, found %d" % n)
+
+
+@rule("C05", "R05.6", "deadline modifications are built only from a request's seconds (or as the push dispatcher's nack): the server never invents or rewrites one", floor=3)
+@rule("C02", "R05.6", "deadline modifications are built only from a request's seconds (or as the push dispatcher's nack): the server never invents or rewrites one", floor=3)
+@rule("C03", "R05.6", "deadline modifications are built only from a request's seconds (or as the push dispatcher's nack): the server never invents or rewrites one", floor=3)
+@rule("C04", "R05.6", "deadline modifications are built only from a request's seconds (or as the push dispatcher's nack): the server never invents or rewrites one", floor=3)
+def r05_6(prog, out):
+    """A delivery's deadline is the subscription's ack deadline from hand-out until a *client* modifies it (C03/C04), a
+    modification means what the client wrote (N > 0 replaces, 0 nacks, C05), and a nacked id is retired (stale for any later
+    Acknowledge, C02).  All of this presupposes that the DeadlineModification values reaching the tracker are the ones the
+    request parser built.  Who may construct one: the type's own constructors; a body that turns request seconds into
+    modifications (it calls the seconds parser); the push dispatcher, as a nack of a delivery it holds.  Anything else (an
+    actor that turns nacks into extensions, a handler that issues modifications on the client's behalf after a pull) is a
+    deadline the client did not ask for."""
+    A = prog.anchors
+    dm = A.ty("DeadlineModification")
+    sl = Slicer(prog)
+    parsers = set(find_seconds_parser(prog))
+    if not parsers:
+        raise CheckBroken("seconds parser not found")
+    sites = []       # (body, bb, how, deadline operand or None, ack id operand)
+    for (bid, bb, i, rv) in prog.constructions(dm):
+        names = rv.j.get("fields") or []
+        nd = rv.ops[names.index("new_deadline")] if "new_deadline" in names else None
+        ai = rv.ops[names.index("ack_id")] if "ack_id" in names else None
+        sites.append((bid, bb, "literal", nd, ai))
+    for b in prog.facts.lib_bodies():
+        bi = prog.info(b.id)
+        for bb, t in bi.calls(lambda c: (c.target or "").startswith(dm + "::") and (c.local or c.res_local)):
+            fb = prog.facts.body(prog.qual(b, t.callee.target))
+            ret = fb.local_ty(0) if fb is not None else ""
+            if dm not in (ret or ""):
+                continue
+            n = t.callee.target.split("::")[-1]
+            sites.append((b.id, bb, n, t.args[1] if len(t.args) > 1 else None, t.args[0] if t.args else None))
+    n = 0
+    for bid, bb, how, nd, ai in sites:
+        b = prog.facts.body(bid)
+        if b is None or b.crate != "lib" or b.file.startswith("/"):
+            continue
+        rb = prog.facts.body(b.root) if b.root else b
+        if (b.impl_self or (rb.impl_self if rb else None)) == dm:
+            continue          # the constructors themselves
+        n += 1
+        bi = prog.info(bid)
+        key = "built:%s:%s" % (prog.short(bid), how)
+        # (a) from request seconds: this body, or the body it is a closure of, calls the seconds parser
+        fam = {bid} | set(prog.facts.descendants(bid))
+        x = b
+        while x is not None and x.parent:
+            pid2 = prog.qual(x, x.parent)
+            fam.add(pid2)
+            fam |= set(prog.facts.descendants(pid2))
+            x = prog.facts.body(pid2)
+        calls_parser = any(prog.qual(prog.facts.body(f), t.callee.target) in parsers
+                           for f in fam if prog.facts.body(f) is not None
+                           for _bb, t in prog.info(f).calls(lambda c: c.local or c.res_local))
+        if calls_parser:
+            out.holds(key, bi.loc(bb), "built from the request's seconds (this code calls the seconds parser)")
+            continue
+        # (b) a nack of a delivery the server itself holds (push dispatch)
+        is_nack = how == "nack" or (nd is not None and nd.place is not None and bi.trace(nd).kind == "agg"
+                                     and bi.agg_at(bi.trace(nd).data).j.get("variant") == "None")
+        if is_nack and ai is not None:
+            s = sl.of(bid, ai)
+            held = any(f == A.cell("PulledMessage", "ack_id") or f[1] == "ack_id" for f in s.fields) or A.ty("PulledMessage") + "::ack_id" in s.calls
+            in_actor = any(bid in set(prog.cone(a.loop, follow=("call", "closure", "poll"))) for a in prog.actors if a.loop)
+            if held and not in_actor:
+                out.holds(key, bi.loc(bb), "nack of a delivery the dispatcher holds")
+                continue
+        out.violation(key, bi.loc(bb), "a deadline modification is built here, not from a request's seconds: the server changes (or rewrites) a delivery's deadline "
+                      "that no client asked for -- the lease no longer runs for the subscription's ack deadline / a nack no longer retires the delivery")
+    if n == 0:
+        raise CheckBroken("no construction of DeadlineModification outside its own constructors")
+
+
+def _early_success(prog, bi, parse_blocks):
+    """a path on which a request is answered normally although its list was never parsed.  In a unary handler a request is the
+    whole body; in a stream body a request starts where the stream yields its next message (`stream.next().await` -> Some)
+    and ends at the next wait or at the return."""
+    from props.c12 import error_blocks
+    from common import await_class
+    from mapstate import presence_switches
+    errs = error_blocks(bi)
+    # a message that carries nothing of the kind has nothing to parse: regions where a list was found empty
+    from mapstate import _bool_switches
+    sl = Slicer(prog)
+    lists = set()
+    for p in parse_blocks:
+        t = bi.body.blocks[p].term
+        for a in (t.args if t.k == "call" else []):
+            lists |= {f for f in sl.of(bi.body.id, a).fields if f[0].startswith("crate::pubsub_proto")}
+        for st in bi.body.blocks[p].stmts:
+            if st.k == "assign" and st.rv.k == "agg" and st.rv.j.get("ak") == "closure":
+                for op in st.rv.ops:
+                    lists |= {f for f in sl.of(bi.body.id, op).fields if f[0].startswith("crate::pubsub_proto")}
+    empty = set()
+    for eb, et in bi.calls(lambda c: c.path.endswith("::is_empty") and ("Vec" in c.path or "slice" in c.path or "[T]" in c.path)):
+        if et.dest is None or not et.dest.is_local() or not et.args:
+            continue
+        if lists and not (lists & set(sl.of(bi.body.id, et.args[0]).fields)):
+            continue
+        for sw, tr, fa in _bool_switches(bi, et.dest.local):
+            if tr is not None:
+                empty |= bi.cfg.edge_dominated(sw, tr)
+    errs = errs | empty
+    # a hand-written loop over the list (`for s in ids { out.push(parse(s)?) }`): leaving the loop because the iterator is
+    # exhausted is "everything parsed" (nothing to parse for an empty list)
+    for nb, nt in bi.calls(lambda c: c.path == "std::iter::Iterator::next"):
+        for sw, some_t, none_t in presence_switches(bi, nb, "option"):
+            if some_t is not None and none_t is not None and none_t != "self" and any(
+                    p in bi.cfg.edge_dominated(sw, some_t) for p in parse_blocks):
+                errs = errs | bi.cfg.edge_dominated(sw, none_t)
+    starts = [a for a in bi.awaits if await_class(prog, bi, a) == "stream_next" and a.ready_bb is not None
+              and all(bi.cfg.dominates(a.ready_bb, p) for p in parse_blocks)]
+    if not starts:
+        return bi.cfg.escapes(0, set(parse_blocks) | errs, after=False)
+    # in a try_stream body an error leaves through the yielder: `Err(e)` built and sent
+    for blk in bi.body.blocks:
+        if not blk.cleanup and any(st.k == "assign" and st.rv.k == "agg" and st.rv.j.get("adt") == "std::result::Result" and st.rv.j.get("variant") == "Err"
+                                   for st in blk.stmts):
+            errs.add(blk.idx)
+    a = max(starts, key=lambda x: sum(1 for y in starts if bi.cfg.dominates(y.ready_bb, x.ready_bb)))      # the innermost
+    ends = set()       # the stream is over (None): not a request
+    if a.result_local is not None:
+        for sw, some_t, none_t in presence_switches(bi, None, "option", local=a.result_local):
+            if none_t is not None and none_t != "self":
+                ends |= bi.cfg.edge_dominated(sw, none_t)
+    exits = set(bi.cfg.returns) | {x.poll_bb for x in bi.awaits if await_class(prog, bi, x) == "stream_next"}
+    return bi.cfg.escapes(a.ready_bb, set(parse_blocks) | errs | ends, exits=exits, after=False)
+
+
+@rule("C05", "R05.7", "a request that is answered Ok has had its deadline modifications parsed: no early success in front of the parse", floor=2)
+def r05_7(prog, out):
+    """`ModifyAckDeadline` / a StreamingPull control message is applied whatever else the message carries.  An early
+    `return Ok(..)` in front of the parse (a `settings only` message, a fast path for some field value) drops the client's
+    modifications silently.  In every body that calls the batch parser, each normal path to the return passes the call."""
+    parser = [b.id for b in prog.facts.lib_bodies() if b.kind == "Fn" and b.local_ty(0).startswith(
+        "std::result::Result<std::vec::Vec<%s" % prog.anchors.ty("DeadlineModification"))]
+    if not parser:
+        raise CheckBroken("batch parser returning Result<Vec<DeadlineModification>, _> not found")
+    n = 0
+    secs = set(find_seconds_parser(prog))
+    # anything that parses modifications: the batch parser(s), the seconds parser, and local functions built on them
+    parse_fns = set(parser) | secs
+    for b0 in prog.facts.lib_bodies():
+        if b0.kind in ("Fn", "AssocFn") and b0.id.startswith("crate::api::parser::") and b0.id not in parse_fns:
+            if any(c in secs for c in prog.cone(b0.id, follow=("call", "closure"))):
+                parse_fns.add(b0.id)
+    facing = set()
+    for h in prog.handlers:
+        if h.root is not None:
+            facing |= {c for c in prog.cone(h.root, follow=("closure", "poll")) if not c.startswith("crate::api::parser::")}
+    for b in prog.facts.lib_bodies():
+        if b.id not in facing or (b.kind == "Closure" and not b.coroutine):
+            continue
+        bi = prog.info(b.id)
+        pcalls = [pbb for pbb, pt in bi.calls(lambda c: prog.qual(bi.body, c.target) in parse_fns)]
+        # per-element parsing through a closure built here (a spliced helper's `map(|..| parse(..))`)
+        for blk in bi.body.blocks:
+            if blk.cleanup:
+                continue
+            for st in blk.stmts:
+                if st.k == "assign" and st.rv.k == "agg" and st.rv.j.get("ak") == "closure":
+                    cid = prog.qual(bi.body, st.rv.j["def"])
+                    if any(c in parse_fns for c in prog.cone(cid, follow=("call", "closure"))):
+                        pcalls.append(blk.idx)
+        if not pcalls:
+            continue
+        n += 1
+        key = "parsed-on-every-path:%s" % prog.short(b.id)
+        esc = _early_success(prog, bi, pcalls)
+        if esc is not None:
+            out.violation(key, bi.loc(esc[-1]), "a path answers without an error before the deadline modifications of the message are parsed: they are dropped silently",
+                          ["path: " + " -> ".join(str(x) for x in esc[:12])])
+        else:
+            out.holds(key, bi.loc(pcalls[0]), "every normal path parses the modifications")
+    if n < 2:
+        raise CheckBroken("expected the unary and the streaming caller of the batch parser, found %d" % n)
